@@ -15,8 +15,8 @@ def run(ctx):
     RR.position_mapping(ctx, "R12.c")
     RS.memo_coherence(ctx, "R12.d")
     RS.consistency_group(ctx, "R12.d")
-    RR.priorities(ctx, "R12.e", "R12.e")
-    RR.directions(ctx, "R12.e", comps)
+    RR.priorities(ctx, "R12.e", "R12.e", match_before_rating=False)
+    RR.directions(ctx, "R12.e", comps, roles=("rating",))
     RC20.buffer_rules(ctx, None, None, "R20.f")
     return info("R12.a: the empty-query selection orders by exactly (rating desc, normalised title asc); R12.b: bounded by "
                 "self.limit with the R06.a selection rules; R12.c: the non-index branch is taken iff the query has no word, an "
